@@ -1,5 +1,6 @@
 import LPVerif.Lemmas.Skel
 import LPVerif.Generated.Skeletons
+import LPVerif.Generated.ChannelTables
 /-!
 # C06 — results are delivered however the profiled program ends
 
@@ -96,5 +97,10 @@ example :
     let env : Env Nat := ⟨fun c => on.contains c, fun k => if k = 0 then some .sysExit else none⟩
     (exec env kernprofTail 0).1 = .normal ∧ countIn dumpIds (exec env kernprofTail 0).2.1 = 1 ∧
     countIn role_timer_stop (exec env kernprofTail 0).2.1 = 1 := by decide +kernel
+
+/-- **C06 (`-i`).** Writing a dump does not switch kernprof's cProfile-based profiler off (`Profile.dump_stats` does, through
+    `create_stats()` → `disable()`; `ContextualProfile` has its own snapshot-only `dump_stats` since the repair of F-C06f): a periodic
+    dump cannot end the profiling of the rest of the run.  (`LineProfiler.dump_stats` pickles `get_stats()`, which C12 shows to be pure.) -/
+theorem periodic_dump_keeps_profiling : Generated.contextualDumpSwitchesOff = false := by decide
 
 end LPVerif.Props.C06
